@@ -176,6 +176,8 @@ def hypergraph_metadata(U, edges, absent=99, rich=False):
         ops.append(("set_edge_metadata", e, None, MD1))
         ops.append(("set_attr_edge", e, None, "k", 2))
         ops.append(("rm_attr_edge", e, None, "k"))
+    ops.append(("add_nodes", (U[0], U[1]), None))
+    ops.append(("add_edges", (edges[0], edges[-1]), None, None, None))
     ops.append(("add_nodes", (U[0], U[1]), ((U[0], MD1), (U[1], MD1))))
     ops.append(("add_nodes", (U[0], U[1]), ((U[0], MD1),)))  # metadata lacks a node -> rejected, nothing added
     ops.append(("add_edges", (edges[0], edges[-1]), None, None, (MD1, MD2)))
@@ -310,6 +312,10 @@ def record_metadata(kind_name, U, records, absent=99, has_node_set=True, has_edg
             ops.append(("set_attr_edge", r, x, "k", 2))
             ops.append(("rm_attr_edge", r, x, "k"))
             break
+    ops.append(("add_nodes", (U[0], U[1]), None))
+    if len(records) >= 2:
+        (r1, x1), (r2, x2) = records[0], records[1]
+        ops.append(("add_edges", (r1, r2), (x1, x2) if x1 is not None or x2 is not None else None, None, None))
     if add_nodes_md:
         ops.append(("add_nodes", (U[0], U[1]), ((U[0], MD1), (U[1], MD1))))
         ops.append(("add_nodes", (U[0], U[1]), ((U[0], MD1),)))
@@ -318,4 +324,14 @@ def record_metadata(kind_name, U, records, absent=99, has_node_set=True, has_edg
         ops.append(("clear",))
     if has_copy:
         ops.append(("copy",))
+    return ops
+
+
+def churn(records, absent_record=None):
+    """tiny alphabet for deep histories: plain insertions and removals of a few records (id reuse, stale tables)"""
+    ops = []
+    for raw, x in records:
+        ops.append(("add_edge", raw, x, None, None))
+    for raw, x in records[:-1]:
+        ops.append(("remove_edge", raw, x))
     return ops
